@@ -486,8 +486,31 @@ class Function:
         appear directly in the expression (incidental constants inside the definitions of
         locals would make the signature depend on how a value is computed)."""
         full = self.anchors(n, depth)
-        direct = self.anchors(n, 0)
-        return {a for a in full if not a.startswith("k:")} | {a for a in direct if a.startswith("k:")}
+        return {a for a in full if not a.startswith("k:")} | self._shape_consts(n, depth)
+
+    def _shape_consts(self, n, depth):
+        """constants by value met when an expression is expanded the way `shape` expands it
+        (through single-definition locals only), so that hoisting `x + 12` into a local of its
+        own does not change the signature"""
+        out = set()
+        n = self.resolve_x(n) if n is not None else None
+        if n is None:
+            return out
+        for x in walk(n):
+            k = x.get("k")
+            if k == "x":
+                y = self.resolve_x(x)
+                if y is not x and y.get("k") != "x":
+                    out |= self._shape_consts(y, depth)
+            elif k in ("int", "sizeof") and "v" in x:
+                out.add("k:%d" % x["v"])
+            elif k in ("bin", "cond", "un", "cast") and "v" in x and not x.get("err"):
+                out.add("k:%d" % x["v"])
+            elif k == "ref" and x.get("rk") in ("l", "sl"):
+                d = self.single_def(x["n"])
+                if d is not None and (depth > 0 or const_val(d) is not None):
+                    out |= self._shape_consts(d, depth - 1)
+        return out
 
     def shape(self, n, depth=2):
         """canonical structure of an expression: operators kept, commutative operands sorted,
@@ -505,10 +528,9 @@ class Function:
             if rk == "p":
                 return "p%d" % n["pi"]
             if rk in ("l", "sl"):
-                if depth > 0:
-                    d = self.single_def(n["n"])
-                    if d is not None:
-                        return self.shape(d, depth - 1)
+                d = self.single_def(n["n"])
+                if d is not None and (depth > 0 or const_val(d) is not None):     # a named constant is always expanded
+                    return self.shape(d, depth - 1)
                 return "l"
             if rk == "e":
                 return str(n.get("v"))
